@@ -107,4 +107,29 @@ def transform {α : Type} [LE α] [DecidableLE α] (fp : FloatPreds α) (crit : 
     | some cl => .ok cl
   else .invalid
 
+/-! ### the transform seen from the kernel
+
+`ValidHierarchicalCluster::transform(kernel)`: the upper triangle of the kernel goes through the `-ln`
+transform with the `F::cast(1e-6)` floor (`thr`), the condensed distance vector is handed to
+`kodama::linkage` (external: the parameter `link`), and the dendrogram is replayed.  The driver answers every
+`hier` request through `transformKernel`, with `link` = the recorded answer of the real `kodama::linkage`
+for the recorded distance vector (`recorded`). -/
+
+/-- the condensed dissimilarity vector handed to `kodama::linkage` -/
+def distances {α : Type} [LT α] [DecidableLT α] [Neg α] [Transc α] (thr : α) (ut : List α) : List α :=
+  ut.map (toDist thr)
+
+/-- `HierarchicalCluster::transform` from the upper triangle of the kernel -/
+def transformKernel {α : Type} [LT α] [DecidableLT α] [LE α] [DecidableLE α] [Neg α] [Transc α]
+    (fp : FloatPreds α) (thr : α) (link : List α → Nat → List (Step α)) (crit : Crit α) (n : Nat)
+    (ut : List α) : Outcome :=
+  transform fp crit n (link (distances thr ut) n)
+
+/-- an external call answered from a record: the dendrogram `steps` is the answer to the question `q`
+(up to `close`, because libm's `ln` may differ in the last place between the two sides); any other question
+gets no dendrogram, so a model transform that differs from the code's is not silently accepted -/
+def recorded {α : Type} (close : α → α → Bool) (q : List α) (steps : List (Step α)) :
+    List α → Nat → List (Step α) :=
+  fun d _ => if d.length == q.length && (d.zip q).all (fun e => close e.1 e.2) then steps else []
+
 end LinfaSpec.Hier
